@@ -35,6 +35,12 @@ def gen_cases(tier, seed):
                                   fish=rnd.choice(["baseline", "nuclear_winter"])))
         # every other real call also asks for the web-interface files (save_all_results): what is returned must not depend on it
         cases[-1]["save_all"] = j % 2 == 0
+    # the generic custom parameter "population" (any column of the country row can be overridden from the scenario): the
+    # countries are then simulated with that population, and it is also their weight in the aggregate
+    for j in range(4 if tier == "quick" else 20):
+        add(["inclusion", "mixed", "exclusion_many"][j % 3], (rnd.sample(isos, rnd.choice([2, 3, 5])) if j % 3 == 0 else
+            (lambda a: a[:3] + ["!" + c for c in a[3:]])(rnd.sample(isos, 6)) if j % 3 == 1 else ["!" + c for c in rnd.sample(isos, len(isos) - 3)]), j == 0,
+            dict(workload.base_country(), population=rnd.choice([3.0e7, 1234567, 2.5e8])))
     nstub = 24 if tier == "quick" else 200
     for k in range(nstub):
         kind = ["empty", "exclusion", "inclusion", "mixed", "exclusion_many", "inclusion_duplicates"][k % 6]
@@ -176,7 +182,7 @@ def audit_call(case, runner, the_list, kind, rnd):
             extra=extra, missing=missing, duplicated=dup)
     exp_pop = sum(p for _, f, p in log if not math.isnan(f))
     exp_fed = sum(p * min(1.0, f) for _, f, p in log if not math.isnan(f))
-    table_pop = sum(pop[i] for i in want)
+    table_pop = sum(pop[i] for i in want) if "population" not in case["opts"] else float(case["opts"]["population"]) * len(want)
     if abs(net_pop - exp_pop) > 1e-12 * max(1.0, exp_pop) or abs(exp_pop - table_pop) > 1e-9 * max(1.0, table_pop):
         bad("aggregate_population_wrong", "net population %.6f, sum over the selected countries %.6f (table %.6f)" % (net_pop, exp_pop, table_pop))
     if abs(net_pop_fed - exp_fed) > 1e-12 * max(1.0, exp_fed):
@@ -208,6 +214,7 @@ def summarize(cases, records, tier):
         "calls_with_a_fraction_above_one": sum(1 for r in ok if r["obs"]["fractions_above_one"] > 0),
         "failed_calls": [r["obs"].get("failed") for r in records if r.get("status") == "ok" and r["obs"].get("failed")][:5],
         "real_calls_with_save_all_results": sum(1 for c, r in zip(cases, records) if c.get("save_all") and r.get("status") == "ok" and r["obs"].get("audited")),
+        "calls_with_a_population_override": sum(1 for c, r in zip(cases, records) if "population" in c.get("opts", {}) and r.get("status") == "ok" and r["obs"].get("audited")),
         "sequences_on_one_runner": sum(1 for r in ok if r["obs"]["kind"] == "sequence_on_one_runner"),
         "calls_on_a_reused_runner": int(sum(r["obs"].get("calls_in_sequence", 1) - 1 for r in ok if r["obs"]["kind"] == "sequence_on_one_runner")),
     }
